@@ -1,4 +1,5 @@
-"""C02 -- node cache: T (Gen/CacheGen.v: slot table, CACHE_SIZE, enum variants from src/tree/cache.rs) + proofs (Props/C02.v)
+"""C02 -- node cache: T (Gen/CacheGen.v: slot table, CACHE_SIZE, enum variants from src/tree/cache.rs; Gen/CacheBodyGen.v: the BODIES of
+Cache::new/get/store/clear/is_empty and AvailableSpace::is_roughly_equal, proved equal to Model/Cache.v in Proofs/CacheBodyProofs.v) + proofs (Props/C02.v)
 + K (random and exhaustive get/store/clear sequences on the real taffy::Cache vs Model/Cache.v over the bit-exact F32
 instance) + search (the property as executable predicates on the implementation, `vh c02 oracle`)."""
 from ..common import *
@@ -68,12 +69,14 @@ def parse_fails(out):
 
 def run(rep, tier, seed, replay=None):
     res, changed = proof_stage(rep, 'C02', extra_trusted=[
-        'hand-modelled (Model/Cache.v), tied only by correspondence: Cache::new/get/store/clear/is_empty, '
-        'AvailableSpace::is_roughly_equal, LayoutOutput::from_outer_size',
+        'Model/Cache.v get/store/clear/is_empty/new/is_roughly_equal are hand-written but PROVED equal (C02_translated_*_is_model) to the '
+        'translation of the Rust bodies regenerated on every run (Gen/CacheBodyGen.v); hand-modelled and tied only by correspondence: '
+        'LayoutOutput::from_outer_size (payload 0), the representation of the two Size arguments as one key, abs = fabs',
         'LayoutOutput modelled as size + opaque payload id (the cache never reads the other fields)',
         'Option<f32> == is the derived PartialEq (None==None, Some a==Some b iff a==b in IEEE sense); f32::EPSILON = 2^-23',
-        'the inactive #[cfg(taffy_verif)] exact-key test hook in get/store/clear is ignored (exact-key mode is never switched on)'])
-    changed = [c for c in changed if c.startswith('gen_cache:')]
+        'the inactive #[cfg(taffy_verif)] exact-key test hook in new/get/store/clear is recognised syntactically by the translator and dropped '
+        '(exact-key mode is never switched on)'])
+    changed = [c for c in changed if c.startswith('gen_cache:') or c.startswith('gen_cachebody:')]
     rep.cov['fingerprints_changed'] = changed
     rc, out, binp, dt = build_harness('release')
     if rc != 0:
